@@ -49,6 +49,7 @@ CAT2 = [c for c in CAT if c[0] != "resp" or (c[2] in ("own", "otherport") and c[
 
 def mk_events(first, depth, combos3=True):
     def make(reach):
+        import asyncio
         from vf import stack
         from vf.simloop import SimLoop
         from aiocoap.message import Message
@@ -164,9 +165,17 @@ def mk_events(first, depth, combos3=True):
                         # token is retired at once, a later response on it is an unknown response
                         md = Message(code=GET, uri_path=["D"], _mtype=CON)
                         md.remote = S.remote(stack.R2)
+                        # resolving the destination takes one loop iteration, during which the application cancels
+                        real_recognize = S.mint.recognize_remote
+
+                        async def slow_recognize(remote):
+                            await asyncio.sleep(0)
+                            return await real_recognize(remote)
+                        S.mint.recognize_remote = slow_recognize
                         rqd = S.ctx.request(md, handle_blockwise=False)
                         rqd.response.cancel()
                         loop.run_ready()
+                        S.mint.recognize_remote = real_recognize
                         if md.token:
                             tp = ev[1]
                             data = Message(code=CONTENT, payload=b"late", _mtype=pick([CON, NON], tp), _mid=4711, _token=md.token).encode()
